@@ -459,6 +459,10 @@ func (p *gRepeat0) Match(src []*types.Token, ctx *Context) (n int, result any, e
 				result = rets
 				return
 			}
+		} else if n1 == 0 {
+			// R matched without consuming a token: it would do so forever.
+			result = rets
+			return
 		}
 		verifStep(ctx, n1)
 		rets = append(rets, ret1)
@@ -503,6 +507,10 @@ func (p *gRepeat1) Match(src []*types.Token, ctx *Context) (n int, result any, e
 				result = rets
 				return
 			}
+		} else if n1 == 0 {
+			// R matched without consuming a token: it would do so forever.
+			result = rets
+			return
 		}
 		verifStep(ctx, n1)
 		rets = append(rets, ret1)
